@@ -392,7 +392,7 @@ pub fn exec(case: &Case, mode: Mode) -> Result<CaseReport, Failure> {
 pub fn main(args: &Args) -> i32 {
     let (cases, blen) = match args.tier {
         Tier::Quick => (700, 0..14),
-        Tier::Thorough => (16 * 900, 0..30),
+        Tier::Thorough => (16 * 3500, 0..30),
     };
     let opts = SetupOpts {
         min_members: 2,
